@@ -370,6 +370,11 @@ inline int XMLDateTime::getRetVal(int c1, int c2)
         return INDETERMINATE;
     }
 
+    // exactly on the edge of the +/-14:00 window: neither strictly before
+    // the earliest nor strictly after the latest instant
+    if (c1 == EQUAL || c2 == EQUAL)
+        return INDETERMINATE;
+
     return ( c1 != INDETERMINATE ) ? c1 : c2;
 }
 
